@@ -106,6 +106,14 @@ func bodySchema(f string) M {
 	if strings.Contains(f, "r") {
 		props["arr"] = M{"type": "array", "items": M{"type": "object", "properties": M{"r": M{"type": "boolean", "default": true}, "k": M{"type": "integer"}}}}
 	}
+	if strings.Contains(f, "z") {
+		// oneOf applied to an array value: the first alternative does not match the arrays sent, and its
+		// item default must not leak into them
+		props["alts"] = M{"oneOf": []any{
+			M{"type": "array", "items": M{"type": "object", "required": []any{"t"}, "additionalProperties": false, "properties": M{"t": M{"type": "string", "enum": []any{"x"}}, "qty": M{"type": "integer", "default": 1.0}}}},
+			M{"type": "array", "items": M{"type": "object", "additionalProperties": false, "properties": M{"name": M{"type": "string"}}}},
+		}}
+	}
 	if strings.Contains(f, "w") {
 		// defaults on properties a request does not carry (readOnly) and on properties only a request
 		// carries (writeOnly): the first is never injected into a request, the second is
@@ -577,7 +585,7 @@ func gen(t *rapid.T) Case {
 	c.HasBody = rapid.IntRange(0, 4).Draw(t, "hasbody") > 0
 	if c.HasBody {
 		feats := ""
-		for _, f := range "pnoarxydw" {
+		for _, f := range "pnoarxydwz" {
 			if rapid.IntRange(0, 2).Draw(t, "feat:"+string(f)) == 0 {
 				feats += string(f)
 			}
@@ -604,6 +612,9 @@ func gen(t *rapid.T) Case {
 				arr = append(arr, M{"r": false})
 			}
 			body["arr"] = arr
+		}
+		if strings.Contains(feats, "z") && has("bz") {
+			body["alts"] = []any{M{"name": "n1"}, M{}}
 		}
 		if strings.Contains(feats, "a") && has("ba") {
 			body["a"] = "sent"
